@@ -41,12 +41,31 @@ class Explorer:
         if len(self.viol) < 200:
             self.viol.append({"kind": kind, "msg": msg, "case": case})
 
-    def wait_bg(self, n, what):
-        try:
-            self.stub.wait_for(lambda: len(self.stub.bg_writes) >= n, timeout=150.0, what=what)
-        except TimeoutError as e:
-            raise MachineryError(str(e))
+    def wait_bg(self, n, what, name=None, case=None):
+        """waits until n background result writes have been captured. With `name`: while waiting, the problem is read
+        through GET every second; if its task list has been empty for 12 s (the task HAS ended - the server says so)
+        and the write still has not been issued, the result is never going to be stored: verdict `result-never-stored`
+        (returns False). A task that is still listed keeps the wait going up to the quiescence time-out."""
+        t0 = time.time()
+        idle_since = None
+        while True:
+            try:
+                self.stub.wait_for(lambda: len(self.stub.bg_writes) >= n, timeout=1.0 if name else 150.0, what=what)
+                break
+            except TimeoutError as e:
+                if not name or time.time() - t0 > 150.0:
+                    raise MachineryError(str(e))
+            st, d = self.get(name)
+            if d is not None and d.get("running_tasks") == []:
+                idle_since = idle_since or time.time()
+                if time.time() - idle_since > 12.0 and len(self.stub.bg_writes) < n:
+                    self.v("result-never-stored", "%s: the server lists no running task for %s any more (for 12 s) but %s has not been issued; GET shows %s" % (
+                        what, name, what, json.dumps(d.get("acs_per_strategy", {}))[:200]), case or {"type": "wait", "name": name})
+                    return False
+            else:
+                idle_since = None
         self.svc.check()
+        return True
 
     def login(self):
         st, _ = self.c.register("owner", "pw")
@@ -107,7 +126,8 @@ class Explorer:
         if st // 100 != 2:
             self.v("add-refused", "add answered %s %s" % (st, body[:100]), case)
             return False
-        self.wait_bg(1, "the parse result write")
+        if not self.wait_bg(1, "the parse result write", name, case):
+            return False
         if solve_first:
             # the problem exists but its parse result has not reached the database yet
             st, body = self.c.solve(name, "Ground")
@@ -128,7 +148,8 @@ class Explorer:
         if st // 100 != 2:
             self.v("solve-refused", "solve %s answered %s %s" % (strat, st, body[:100]), case)
             return False
-        self.wait_bg(1, "the result write of %s" % strat)
+        if not self.wait_bg(1, "the result write of %s" % strat, name, case):
+            return False
         # the computation has ended (its write was issued) but the result is not stored yet
         st, d = self.get(name)
         if d is not None:
@@ -285,7 +306,8 @@ class Explorer:
         if st // 100 != 2:
             # refusing the submission outright is also "reported as an error"
             return
-        self.wait_bg(1, "the parse result write")
+        if not self.wait_bg(1, "the parse result write", name, case):
+            return
         self.stub.apply_bg(0)
         st, d = self.get(name)
         if d is None:
@@ -343,6 +365,7 @@ def overlap_worker(server_bin, spec):
         c17.EMPTY = w.snapshot()
         c17.overlap(w, stats)
         c17.overlap_coinciding_keys(w, stats)
+        c17.inflight(w, stats)
         svc.check()
     except MachineryError as e:
         res = {"ok": False, "machinery": str(e)}
